@@ -46,6 +46,9 @@ def translate(repo: Path) -> str:
     # the report is sorted(...) of the filtered list with this key, nothing else
     rr = next(n for n in tree.body if isinstance(n, ast.FunctionDef) and n.name == "run_refurb")
     ret = rr.body[-1]
+    if (isinstance(ret, ast.Try) and not ret.handlers and not ret.orelse
+            and not any(isinstance(n, ast.Return) for st in ret.finalbody for n in ast.walk(st))):
+        ret = ret.body[-1]                       # try: ...; return sorted(...) finally: <cleanup that does not return>
     if not isinstance(ret, ast.Return):
         raise TranslateError('run_refurb does not end in a return')
     want = "sorted([error for error in errors if not should_ignore_error(error, settings)], key=partial(sort_errors, settings=settings))"
